@@ -139,10 +139,12 @@ def check_case(case):
                         (all(close(x, y) for x, y in zip(res[k], r0[k])) if kind == "fva" else same_del(res[k], r0[k]))
                     if not same:
                         msg = f"{kind}: {k} = {res[k]} with processes={procs}, delays {dseed}, order {items}; {r0[k]} with processes={p0}, order {it0}"
-                        if kind == "fva" and case.get("loopless"):
+                        if kind == "fva" and case.get("loopless") and not m.reactions.get_by_id(k).boundary:
+                            # the recorded finding: loopless_fva_iter decides from the vertex the solver happens to be at.  It concerns reactions that
+                            # can lie on an internal cycle; a boundary reaction gets the plain LP optimum and has to agree
                             case.setdefault("_known", []).append("loopless-fva-schedule-dependent: " + msg)
-                        else:
-                            fails.append(msg)
+                            continue
+                        fails.append(msg)
                         break
             # every item alone
             if kind in ("double_gene", "double_reaction") and not fails:
@@ -156,7 +158,10 @@ def check_case(case):
                     if k in one and not same_del(one[k], r0[k]):
                         fails.append(f"{kind}: the pair {k} asked alone gives {one[k]}, in the batch {r0[k]}")
             if kind in ("fva", "single_gene", "single_reaction") and not fails:
-                for k in case["items"][:case.get("alone", 3)]:
+                alone_items = list(case["items"])
+                if kind == "fva" and case.get("loopless"):
+                    alone_items.sort(key=lambda x: not m.reactions.get_by_id(x).boundary)      # boundary reactions first (stable)
+                for k in alone_items[:case.get("alone", 3)]:
                     if kind == "fva":
                         one, _ = fva_frame(m, [k], 1, loopless=case.get("loopless", False), fraction=case.get("fraction", 1.0))
                         ok = all(close(x, y) for x, y in zip(one[k], r0[k]))
@@ -168,7 +173,7 @@ def check_case(case):
                         ok = same_del(one[k], r0[k])
                     if not ok:
                         msg = f"{kind}: {k} asked alone gives {one[k]}, in the batch {r0[k]}"
-                        if kind == "fva" and case.get("loopless"):
+                        if kind == "fva" and case.get("loopless") and not m.reactions.get_by_id(k).boundary:
                             case.setdefault("_known", []).append("loopless-fva-schedule-dependent: " + msg)
                         else:
                             fails.append(msg)
@@ -192,6 +197,14 @@ def check_sampling_case(case):
             # the global numpy generator of the calling process is in a different state each time (as in two separate interpreters): a
             # reproducible sampler does not depend on it
             np.random.seed(1000 + 7919 * rep)
+            # ... and the wall clock reads differently (two runs are not made within the same second): a seeded sampler does not consult it
+            try:
+                import time as _time
+                import cobra.sampling.hr_sampler as _hr
+                if hasattr(_hr, "time") and callable(_hr.time):
+                    _hr.time = (lambda off: (lambda: _time.time() + off))(86400.0 * rep + 3.0 * rep)
+            except Exception:
+                pass
             try:
                 s = OptGPSampler(m, processes=case["processes"], thinning=case["thinning"], seed=case["sampler_seed"])
                 df = s.sample(case["n"])
@@ -228,7 +241,7 @@ def gen_case(rng, tier):
     if rng.random() < 0.15:
         p = rng.choice([2, 3, 4])
         return {"kind": "sampling", "spec": spec, "processes": p, "n": rng.choice([3, 5, 8, 9, 12]), "thinning": rng.choice([1, 3]),
-                "sampler_seed": rng.randint(1, 10 ** 6)}
+                "sampler_seed": rng.choice([0, 0, 1, rng.randint(2, 10 ** 6), rng.randint(2, 10 ** 6), 2 ** 31 - 1, 2 ** 31 + 5])}
     kind = rng.choice(["fva", "fva", "fva", "single_gene", "single_reaction", "double_reaction", "double_gene", "double_gene", "blocked",
                        "essential_genes", "essential_reactions"])
     if kind in ("single_gene", "double_gene") and len(gids) < 2:
@@ -240,7 +253,7 @@ def gen_case(rng, tier):
     schedules = [[p, rng.randint(0, 10 ** 6)] for p in procs] + [[rng.choice(procs[1:]), rng.randint(0, 10 ** 6)]]
     c = {"kind": kind, "spec": spec, "items": items, "schedules": schedules, "seed": rng.randint(0, 10 ** 6), "max_delay_ms": rng.choice([0, 2, 6])}
     if kind == "fva":
-        c.update(loopless=rng.random() < 0.2, fraction=rng.choice([1.0, 0.9, 0.5]))
+        c.update(loopless=rng.random() < 0.3, fraction=rng.choice([1.0, 0.9, 0.5]))
     return c
 
 
